@@ -1,23 +1,45 @@
 #!/bin/sh
 # Build the framework from files on disk only (offline): translators -> Lean project -> harness.
+# Only the properties claimed in MANIFEST.json are built here; ./check rebuilds what it needs anyway.
 set -e
 cd "$(dirname "$0")"
 export CARGO_NET_OFFLINE=true
-for t in translators/*.py; do python3 "$t"; done
-(cd lean && lake build $(python3 - <<'PY'
-import json,glob
-ps=[json.load(open(f)) for f in sorted(glob.glob('../props/C*.json'))]
-print(' '.join(sorted({p['driver_exe'] for p in ps if p.get('driver_exe')} | {p['props_module'] for p in ps if p.get('props_module')})))
+IDS=$(python3 -c "import json;print(' '.join(c['property_id'] for c in json.load(open('MANIFEST.json'))['checks']))")
+for id in $IDS; do
+  for t in $(python3 -c "import json;print(' '.join(json.load(open('props/$id.json')).get('translators',[])))"); do
+    python3 "translators/$t"
+  done
+done
+LEAN_TARGETS=$(python3 - $IDS <<'PY'
+import json,sys
+t=set()
+for i in sys.argv[1:]:
+    p=json.load(open(f'props/{i}.json'))
+    if p.get('props_module'): t.add(p['props_module'])
+    if p.get('driver_exe'): t.add(p['driver_exe'])
+    for x in p.get('extra_lean_targets',[]): t.add(x)
+print(' '.join(sorted(t)))
 PY
-))
+)
+(cd lean && lake build $LEAN_TARGETS)
 [ -f harness/Cargo.lock ] || cp /repo/Cargo.lock harness/Cargo.lock
-(cd harness && RUSTFLAGS="--cfg koto_verif" cargo build --offline --bins)
-if grep -qs '"arc_build": true' props/C*.json; then
-  (cd harness && CARGO_TARGET_DIR=target-arc RUSTFLAGS="--cfg koto_verif" cargo build --offline --no-default-features --features arc $(python3 - <<'PY'
-import json,glob
-ps=[json.load(open(f)) for f in sorted(glob.glob('props/C*.json'))]
-print(' '.join('--bin '+p['harness_bin'] for p in ps if p.get('arc_build')))
+BINS=$(python3 - $IDS <<'PY'
+import json,sys
+b=set()
+for i in sys.argv[1:]:
+    p=json.load(open(f'props/{i}.json'))
+    b.add(p['harness_bin'])
+    for x in p.get('extra_bins',[]): b.add(x['harness_bin'])
+print(' '.join('--bin '+x for x in sorted(b)))
 PY
-))
+)
+(cd harness && RUSTFLAGS="--cfg koto_verif" cargo build --offline $BINS)
+ARC=$(python3 - $IDS <<'PY'
+import json,sys
+print(' '.join('--bin '+json.load(open(f'props/{i}.json'))['harness_bin'] for i in sys.argv[1:] if json.load(open(f'props/{i}.json')).get('arc_build')))
+PY
+)
+if [ -n "$ARC" ]; then
+  (cd harness && CARGO_TARGET_DIR=target-arc RUSTFLAGS="--cfg koto_verif" cargo build --offline --no-default-features --features arc $ARC)
 fi
 echo setup done
